@@ -106,7 +106,7 @@ def judge_block(index, seed, tree, tier):
                     status, out, err = run_under_seam([ZYDECO, "run", path], key, cwd=tree, timeout=20)
                     stats["processes"] += 1
                     behaviour = (status, out)
-                    if status != program.exit_code:
+                    if program.exit_code is not None and status != program.exit_code:
                         return stats, violation(
                             f"run exits with {status}, the reference graph predicts {program.exit_code}", order, key,
                             err.decode("utf8", "replace")[-800:])
@@ -114,6 +114,15 @@ def judge_block(index, seed, tree, tier):
                 observations.append((number, key, verdict, behaviour, err))
         finally:
             os.unlink(path)
+    # behaviour must not depend on the permutation (for programs whose exit code the
+    # generator does not predict this is the whole behavioural oracle)
+    reference_behaviour = next((b for _n, _k, _v, b, _e in observations if b is not None), None)
+    for number, key, verdict, behaviour, err in observations:
+        if behaviour is not None and behaviour != reference_behaviour:
+            return stats, violation(
+                f"permuting the contributions changes the behaviour: exit {behaviour[0]} here, exit "
+                f"{reference_behaviour[0]} for the first permutation", orders[number], key,
+                {"stdout": behaviour[1].decode("utf8", "replace")[-300:]})
     by_order = {}
     for number, key, verdict, behaviour, err in observations:
         first = by_order.setdefault(number, (key, verdict, behaviour, err))
@@ -141,6 +150,14 @@ def replay_block(path):
     problem = None
     if verdict != payload["expect"]:
         problem = f"check verdict {verdict}, reference graph says {payload['expect']}"
+    elif "permuting the contributions changes the behaviour" in payload["message"]:
+        other = os.path.join(tree, "lib", "replay-reference.zy")
+        with open(other, "w") as handle:
+            handle.write(payload["reference_program"].replace("<BUILTIN>", builtin))
+        a = run_under_seam([ZYDECO, "run", other], key, cwd=tree, timeout=20)
+        b = run_under_seam([ZYDECO, "run", file], key, cwd=tree, timeout=20)
+        if (a[0], a[1]) != (b[0], b[1]):
+            problem = f"behaviour differs between two permutations: exit {a[0]} vs exit {b[0]}"
     elif verdict == "accept" and payload.get("expected_exit") is not None:
         status, out, err = run_under_seam([ZYDECO, "run", file], key, cwd=tree, timeout=20)
         if status != payload["expected_exit"]:
